@@ -414,8 +414,8 @@ P("C03", "Any-budget, filtered search results are well-formed and budget-monoton
   assumptions=["MIR dumped with overflow-checks on = dev profile, off = release profile"])
 P("C01", "Every tree of a built index covers exactly the live items, each once",
   "symbolic execution of the rustc MIR of the recursive writer functions (z3 decides every path and assertion) from every pre-state of a bounded forest family satisfying the representation invariant; Kani for the single-bucket shortcut",
-  "Bounded symbolic execution: one step of each build-pipeline function from an arbitrary invariant-satisfying pre-state within the shape family; the composition over whole builds is a paper argument.",
-  level_note="Trusted: rustc MIR semantics, z3, the model table (bit-set bitmaps, store, TmpNodes as put/remove/remap lists, fresh side decisions), the invariant Inv and the step contracts of DESIGN.md section 3; the induction over histories is not machine-checked.",
+  "Bounded symbolic execution: one step of each build-pipeline function from an arbitrary invariant-satisfying pre-state within the shape family, plus Writer::build as a whole executed from its MIR over short histories (build_history); the composition beyond those histories is a paper argument.",
+  level_note="Trusted: rustc MIR semantics, z3, the model table (bit-set bitmaps, store, TmpNodes as put/remove/remap lists, fresh side decisions), the invariant Inv and the step contracts of DESIGN.md section 3; the induction over histories longer than the listed ones is not machine-checked.",
   stubs_and_models=["E2 model table (lib/mirsym/models.py, world.py)"],
   functions_encoded=["Writer::build", "Writer::item_indices", "Writer::reset_and_retrieve_updated_items", "Writer::clear_db_and_create_a_single_leaf", "Writer::used_tree_node",
                      "target_n_trees", "Writer::delete_extra_trees", "Writer::delete_tree", "Writer::delete_items_from_trees", "Writer::delete_items_in_file",
